@@ -116,8 +116,12 @@ func (c *fakeClient) depositLog(i int) ethTypes.Log {
 	if err != nil {
 		panic(err)
 	}
+	sender := userTopic
+	if p.Sender != "" { // the depositor: indexed, never handed to a deposit handler
+		sender = common.BytesToHash(mustHex(p.Sender))
+	}
 	return ethTypes.Log{
-		Address: bridgeAddr, Topics: []common.Hash{events.DepositSig.GetTopic(), userTopic}, Data: exact(data),
+		Address: bridgeAddr, Topics: []common.Hash{events.DepositSig.GetTopic(), sender}, Data: exact(data),
 		BlockNumber: p.Block, TxHash: common.HexToHash(p.Tx), Index: p.LogIdx,
 	}
 }
@@ -490,7 +494,7 @@ func (w *world) direct(i int) *occ {
 			if !ok {
 				panic("bad amount")
 			}
-			m, err = w.btcDH.HandleDeposit(c.SrcDom, c.Nonce, rid, amount, string(data), big.NewInt(100), ts)
+			m, err = w.btcDH.HandleDeposit(c.SrcDom, c.Nonce, rid, amount, string(data), c.btcBlock(), ts)
 		default:
 			panic("direct step over an EVM deposit")
 		}
